@@ -140,6 +140,9 @@ SPECS = [
     # --- Headers (C03/C13) ---
     ("hdrMaxTrailerBytes", "lib/src/protocol/mux/pkawa.rs", r"pub const MAX_TRAILER_BYTES: usize = ([^;]+);", "per-trailer-block byte cap"),
     ("hdrFieldSizeOverhead", "lib/src/protocol/mux/h2.rs", r"const HEADER_FIELD_SIZE_OVERHEAD: usize = ([^;]+);", "RFC 9113 6.5.2 per-field overhead"),
+    ("cfgH2MinBufferSize", "command/src/config.rs", r"pub const H2_MIN_BUFFER_SIZE: u64 = ([^;]+);", "smallest buffer_size accepted when an HTTPS listener advertises h2"),
+    ("cfgDefaultBufferSize", "command/src/config.rs", r"pub const DEFAULT_BUFFER_SIZE: u64 = ([^;]+);", "buffer_size when the file does not set it"),
+    ("cfgMsgCounterBits", "command/src/config.rs", r"let mut count = 0u(\d+);", "width of the message id counter of generate_config_messages (after a repair to usize: change this pattern / the constant to 64)"),
 ]
 
 # byte tables: (lean name, file, regex with ONE group = comma-separated byte list)
